@@ -6,7 +6,7 @@
    Statements only; proofs are in Tags/TagsProofs.v. *)
 From Coq Require Import List Arith NArith Bool Lia Sorted.
 Import ListNotations.
-Require Import VParse VDec Tags TagsLit TagsModel TagsProofs.
+Require Import VParse VDec Tags TagsLit TagsModel TagsProofs TagsLower TagsThread TagsDefault TagsSys.
 Open Scope N_scope.
 
 (* 1. cpython_tags = cpXY-<abi> for each given ABI (abi3/none removed once), then cpXY-abi3 and cpXY-none, then cpXZ-abi3 for the
@@ -165,3 +165,183 @@ Example C15_generic_abi_documented_forms :
   generic_abi (Some [46;112;121;100]) c (3, [7])%nat = GOk [[99;112;51;55;109]] /\
   generic_abi None c (3, [7])%nat = GSystemError.
 Proof. cbv zeta. repeat split; vm_compute; reflexivity. Qed.
+
+(* ====================================================================================================================
+   Improvement round (audit C15): Tag-level NoDup, default arguments, sys_tags NoDup, threading, default ABI, EXT_SUFFIX forms
+   ==================================================================================================================== *)
+
+(* 14. "no tag is repeated when the inputs have no repeats", about the Tag objects (Tag() lower-cases its parts):
+       "no repeats" is read after lower-casing, and no explicit ABI may be a differently-cased spelling of abi3/none
+       (list.remove / `"none" in abis` compare the raw text).  On lower-case input this is exactly 9. (C15_lowercase_identity). *)
+Theorem C15_nodup_tags_cpython pv abis ps :
+  NoDup (map lower abis) -> NoDup (map lower ps) ->
+  ~ In s_abi3 (map lower (cp_abis abis)) -> ~ In s_none (map lower (cp_abis abis)) ->
+  NoDup (map lower_tag (cpython_tags pv abis ps)).
+Proof. exact (cpython_lower_nodup pv abis ps). Qed.
+Print Assumptions C15_nodup_tags_cpython.
+Theorem C15_nodup_tags_generic interp abis ps :
+  NoDup (map lower abis) -> NoDup (map lower ps) -> (In s_none (map lower abis) -> In s_none abis) ->
+  NoDup (map lower_tag (generic_tags interp abis ps)).
+Proof. exact (generic_lower_nodup interp abis ps). Qed.
+Print Assumptions C15_nodup_tags_generic.
+Theorem C15_nodup_tags_compatible pv interp ps :
+  NoDup (map lower ps) -> ~ In s_any (map lower ps) -> (forall x, interp = Some x -> ~ In (lower x) (py_range pv)) ->
+  NoDup (map lower_tag (compatible_tags pv interp ps)).
+Proof. exact (compatible_lower_nodup pv interp ps). Qed.
+Print Assumptions C15_nodup_tags_compatible.
+(* the readings are necessary.  abis = ["ABI3"] (one item, no repeat) repeats cp39-abi3-p; platforms ["P"; "p"] repeat every tag;
+   generic abis = ["NONE"] repeats pp39-none-p; compatible_tags repeats py3-none-any for platforms = ["any"] and for interpreter "py3" *)
+Theorem C15_case_induced_repeats :
+  (NoDup [s_ABI3] /\ NoDup [[112]] /\ ~ NoDup (map lower_tag (cpython_tags (3, [9])%nat [s_ABI3] [[112]]))) /\
+  (NoDup [s_cp ++ [51; 57]] /\ NoDup [[80]; [112]] /\ ~ NoDup (map lower_tag (cpython_tags (3, [9])%nat [s_cp ++ [51; 57]] [[80]; [112]]))) /\
+  (NoDup [s_NONE] /\ ~ NoDup (map lower_tag (generic_tags [112; 112; 51; 57] [s_NONE] [[112]]))).
+Proof.
+  destruct cpython_case_repeats as (A & B & C & D & E & F). split; [auto|]. split; [auto|]. exact generic_case_repeats.
+Qed.
+Print Assumptions C15_case_induced_repeats.
+Theorem C15_compatible_side_conditions_needed :
+  ~ NoDup (map lower_tag (compatible_tags (3, [])%nat None [s_any])) /\
+  ~ NoDup (map lower_tag (compatible_tags (3, [1])%nat (Some (s_py ++ [51])) [[112]])).
+Proof. exact compatible_repeats. Qed.
+Print Assumptions C15_compatible_side_conditions_needed.
+
+(* 15. the default arguments, as the correspondence run executes them (Run/RunTags.v: cpython_tags_d, compatible_tags_d,
+       generic_tags_d): an empty platform list is replaced by the detected list, a missing python_version by
+       sys.version_info[:2], a missing ABI list by the default ABIs (none for a major-only version), an empty interpreter
+       by interpreter_name() + interpreter_version(); the block structure is the one of 1., 6., 7. over those values *)
+Theorem C15_default_arguments d c pv abis interp gabis ps :
+  cpython_tags_d d c pv abis ps =
+    (let v := pv_or_sys pv (d_sysver d) in
+     expand (cp_blocks v (match abis with Some a => a | None => default_abis c v end)) (or_detected ps (d_plats d))) /\
+  compatible_tags_d d pv interp ps =
+    (let v := pv_or_sys pv (d_sysver d) in let used := or_detected ps (d_plats d) in
+     expand (compat_blocks v) used ++ (match interp with Some i => [(i, s_none, s_any)] | None => [] end) ++ expand (compat_blocks v) [s_any]) /\
+  (forall gi, generic_tags_d d gi gabis ps =
+     expand (map (fun a => (interp_or_sys gi d, a)) (generic_abis gabis)) (or_detected ps (d_plats d))).
+Proof. split; [apply cpython_d_exact|]. split; [apply compatible_d_exact | intros; apply generic_d_exact]. Qed.
+Print Assumptions C15_default_arguments.
+Theorem C15_fallbacks ps detected i d sysver v :
+  (ps <> [] -> or_detected ps detected = ps) /\ or_detected [] detected = detected /\
+  (i <> [] -> interp_or_sys i d = i) /\
+  interp_or_sys [] d = interpreter_name (d_name d) ++ interpreter_version (d_nodot d) (d_sysver d) /\
+  pv_or_sys None sysver = sysver /\ pv_or_sys (Some v) sysver = v /\
+  (forall c M, default_abis c (M, []) = []) /\ (forall c M m r, default_abis c (M, m :: r) = cpython_abis c (M, m :: r)).
+Proof.
+  destruct (or_detected_spec ps detected) as [A B]. destruct (interp_or_sys_spec i d) as [C D]. repeat split; auto.
+Qed.
+Print Assumptions C15_fallbacks.
+
+(* 16. sys_tags repeats no Tag: for CPython whenever the detected platforms are distinct (after lower-casing) and none is "any";
+       for other interpreters also: the interpreter tag <name><version> is not one of the py* tags of the compatible block, and
+       the ABI derived from EXT_SUFFIX is not a differently-cased "none".  sys.implementation.name = "python" violates the
+       first of these and does repeat tags (C15_sys_tags_python_repeats). *)
+Theorem C15_sys_tags_nodup s plats l :
+  sys_tags s plats = SOk l ->
+  NoDup (map lower plats) -> ~ In s_any (map lower plats) ->
+  (interpreter_name (impl_name s) <> s_cp ->
+     ~ In (lower (interpreter_name (impl_name s) ++ interpreter_version (py_version_nodot s) (sys_version s))) (py_range (sys_version s)) /\
+     (forall abis, generic_abi (ext_suffix s) (abi_cfg s) (sys_version s) = GOk abis -> In s_none (map lower abis) -> In s_none abis)) ->
+  NoDup (map lower_tag l).
+Proof. exact (sys_tags_nodup s plats l). Qed.
+Print Assumptions C15_sys_tags_nodup.
+Theorem C15_sys_tags_nodup_cpython s plats l : interpreter_name (impl_name s) = s_cp -> sys_tags s plats = SOk l ->
+  NoDup (map lower plats) -> ~ In s_any (map lower plats) -> NoDup (map lower_tag l).
+Proof. exact (sys_tags_nodup_cpython s plats l). Qed.
+Print Assumptions C15_sys_tags_nodup_cpython.
+Theorem C15_sys_tags_python_repeats : exists l, sys_tags sys_python [[112]] = SOk l /\ ~ NoDup (map lower_tag l).
+Proof.
+  pose proof sys_tags_python_repeats as H. destruct (sys_tags sys_python [[112]]) as [l| |]; try discriminate H.
+  exists l. split; [reflexivity | now apply has_dup_sound].
+Qed.
+Print Assumptions C15_sys_tags_python_repeats.
+
+(* 17. "never for free-threaded ABIs", precisely.  An ABI is recognised as free-threaded iff it is  cp <digits> <flags> [NEWLINE ...]
+       with a "t" among the flags (the rest of the first line after the digit run).  The decision is made on the FIRST explicit
+       ABI that remains after abi3/none were removed, on the raw text: a free-threaded ABI in second position, or spelled in upper
+       case, still gets abi3 tags (counterexamples), and any "t" in the flags counts (cp313_stable gets none). *)
+Theorem C15_threaded_spec a : threaded_abi a = true <-> threaded_shape a.
+Proof. exact (threaded_spec a). Qed.
+Print Assumptions C15_threaded_spec.
+Theorem C15_abi3_first_abi_only pv abis :
+  cp_use_abi3 pv abis = abi3_applies pv (match cp_abis abis with [] => false | a :: _ => threaded_abi a end) /\
+  (NoDup abis -> cp_abis abis = filter (fun a => negb (streq a s_abi3) && negb (streq a s_none)) abis).
+Proof. split; [apply use_abi3_first_only | apply cp_abis_filter]. Qed.
+Print Assumptions C15_abi3_first_abi_only.
+Theorem C15_first_abi_only_counterexample :
+  threaded_abi s_cp313t = true /\ In s_cp313t (cp_abis [s_cp313; s_cp313t]) /\
+  In (s_cp313, s_abi3, [112]) (cpython_tags (3, [13])%nat [s_cp313; s_cp313t] [[112]]) /\
+  (forall i p, ~ In (i, s_abi3, p) (cpython_tags (3, [13])%nat [s_cp313t; s_cp313] [[112]])).
+Proof. exact first_abi_only_counterexample. Qed.
+Print Assumptions C15_first_abi_only_counterexample.
+Theorem C15_threaded_raw_text :
+  (let a := [67; 80; 51; 49; 51; 84] in lower a = s_cp313t /\ threaded_abi a = false /\
+     In (s_cp313, s_abi3, [112]) (cpython_tags (3, [13])%nat [a] [[112]])) /\
+  threaded_abi (s_cp313 ++ [95; 115; 116; 97; 98; 108; 101]) = true.
+Proof. split; [exact threaded_case_sensitive | exact threaded_overbroad]. Qed.
+Print Assumptions C15_threaded_raw_text.
+
+(* 18. the default ABI list for every configuration: cp<XY> + t d m u (in this order) and, for a debug build of 3.8+, the non-debug
+       ABI cp<XY>[t] as second entry; t only from 3.13 with Py_GIL_DISABLED, m only below 3.8, u only below 3.3 *)
+Theorem C15_default_abis c pv :
+  cpython_abis c pv =
+  (s_cp ++ nodot2 pv ++ abi_flags c pv) ::
+  (if tup_ge (pv_list pv) [3; 8]%nat && abi_debug c then [s_cp ++ nodot2 pv ++ flag (abi_threading c pv) s_t] else []).
+Proof. exact (cpython_abis_shape c pv). Qed.
+Print Assumptions C15_default_abis.
+Theorem C15_default_abi_flags c pv :
+  abi_flags c pv = flag (abi_threading c pv) s_t ++ flag (abi_debug c) s_d ++ flag (abi_pymalloc c pv) s_m ++ flag (abi_ucs4 c pv) s_u /\
+  (abi_threading c pv = true -> tup_ge (pv_list pv) [3; 13]%nat = true /\ truthy (gil_disabled c) = true) /\
+  (abi_pymalloc c pv = true -> tup_lt (pv_list pv) [3; 8]%nat = true /\ (truthy (with_pymalloc c) || is_none (with_pymalloc c)) = true) /\
+  (abi_ucs4 c pv = true -> tup_lt (pv_list pv) [3; 3]%nat = true /\
+                           (match unicode_size c with Some n => n =? 4 | None => wide_unicode c end) = true) /\
+  (tup_ge (pv_list pv) [3; 8]%nat = true -> abi_pymalloc c pv = false /\ abi_ucs4 c pv = false) /\
+  (tup_ge (pv_list pv) [3; 3]%nat = true -> abi_ucs4 c pv = false).
+Proof. split; [reflexivity | exact (abi_flag_thresholds c pv)]. Qed.
+Print Assumptions C15_default_abi_flags.
+Theorem C15_default_abis_wellformed c pv :
+  NoDup (cpython_abis c pv) /\ map lower (cpython_abis c pv) = cpython_abis c pv /\ cp_abis (cpython_abis c pv) = cpython_abis c pv.
+Proof. split; [apply cpython_abis_nodup|]. split; [apply cpython_abis_lower | apply cp_abis_default]. Qed.
+Print Assumptions C15_default_abis_wellformed.
+
+(* 19. _generic_abi on every form of EXT_SUFFIX (13. has ".cpython-<X>-<plat>.<ext>"):
+       ".cp<X>[-<plat>].<ext>" -> cp<X>;  ".pypy<A>-<B>[-...].<ext>" -> pypy<A>_<B>;  ".graalpy<A>-<B>-<C>[-...].<ext>" -> graalpy<A>_<B>_<C>;
+       any other non-empty soabi -> itself, normalised;  "..<ext>" -> no ABI;  ".<ext>" (two parts) -> the CPython default ABIs;
+       None / no leading "." -> SystemError;  "" -> IndexError *)
+Theorem C15_generic_abi_forms c v :
+  (forall X tail rest, free_of 46 X -> free_of 45 X -> free_of 32 X -> free_of 46 tail -> hd 0 X <> 121 -> (tail = [] \/ exists t, tail = 45 :: t) ->
+     generic_abi (Some (46 :: (s_cp ++ X ++ tail) ++ 46 :: rest)) c v = GOk [s_cp ++ X]) /\
+  (forall A B tail rest, free_of 46 A -> free_of 45 A -> free_of 46 B -> free_of 45 B -> free_of 46 tail -> (tail = [] \/ exists t, tail = 45 :: t) ->
+     generic_abi (Some (46 :: (s_pypy ++ A ++ 45 :: B ++ tail) ++ 46 :: rest)) c v = GOk [normalize_string (s_pypy ++ A ++ [45] ++ B)]) /\
+  (forall A rest, free_of 46 A -> free_of 45 A ->
+     generic_abi (Some (46 :: (s_pypy ++ A) ++ 46 :: rest)) c v = GOk [normalize_string (s_pypy ++ A)]) /\
+  (forall A B C tail rest, free_of 46 A -> free_of 45 A -> free_of 46 B -> free_of 45 B -> free_of 46 C -> free_of 45 C -> free_of 46 tail ->
+     (tail = [] \/ exists t, tail = 45 :: t) ->
+     generic_abi (Some (46 :: (s_graalpy ++ A ++ 45 :: B ++ 45 :: C ++ tail) ++ 46 :: rest)) c v =
+     GOk [normalize_string (s_graalpy ++ A ++ [45] ++ B ++ [45] ++ C)]) /\
+  (forall soabi rest, free_of 46 soabi -> soabi <> [] -> starts_with s_cp soabi = false -> starts_with s_pypy soabi = false ->
+     starts_with s_graalpy soabi = false -> generic_abi (Some (46 :: soabi ++ 46 :: rest)) c v = GOk [normalize_string soabi]) /\
+  (forall rest, generic_abi (Some (46 :: 46 :: rest)) c v = GOk []) /\
+  (forall ext, free_of 46 ext -> generic_abi (Some (46 :: ext)) c v = GOk (cpython_abis c v)) /\
+  generic_abi None c v = GSystemError /\ generic_abi (Some []) c v = GCrash /\
+  (forall x e, x <> 46 -> generic_abi (Some (x :: e)) c v = GSystemError).
+Proof.
+  split; [intros; now apply generic_abi_cp|]. split; [intros; now apply generic_abi_pypy|]. split; [intros; now apply generic_abi_pypy_single|].
+  split; [intros; now apply generic_abi_graalpy|]. split; [intros; now apply generic_abi_other|]. split; [intros; apply generic_abi_empty_soabi|].
+  split; [intros; now apply generic_abi_two_parts | apply generic_abi_rejects].
+Qed.
+Print Assumptions C15_generic_abi_forms.
+
+(* non-vacuity of 14.-19. (closed boolean computations): mixed-case input that satisfies the hypotheses of 14. has no repeated Tag;
+   the fallbacks fire; a threaded ABI has the stated shape; the documented EXT_SUFFIX examples are instances of 19. *)
+Definition C15_round2_check : bool :=
+  let abis := [[67;80;51;57]; s_cp ++ [51;57;109]] in let ps := [[80]; [113]] in             (* ["CP39"; "cp39m"], ["P"; "q"] *)
+  negb (has_dup (map lower_tag (cpython_tags (3, [9])%nat abis ps))) &&
+  negb (has_dup (map lower_tag (generic_tags [80;80] abis ps))) &&
+  Nat.eqb (length (cpython_tags_d {| d_plats := [[120]; [121]]; d_sysver := (3, [12])%nat; d_name := s_cpython; d_nodot := None |} cfg0 None None [])) 26 &&
+  streq (fst (fst (hd ([], [], []) (generic_tags_d {| d_plats := [[120]]; d_sysver := (3, [12])%nat; d_name := s_pypy; d_nodot := None |} [] [] []))))
+        (s_pp ++ [51;49;50]) &&
+  threaded_abi s_cp313t && negb (threaded_abi s_cp313) &&
+  match sys_tags {| impl_name := s_cpython; py_version_nodot := None; sys_version := (3, [12])%nat; ext_suffix := None; abi_cfg := cfg0 |} [[120]; [121]] with
+  | SOk l => negb (has_dup (map lower_tag l)) && Nat.eqb (length l) 69 | _ => false end.
+Example C15_round2_nonvacuous : C15_round2_check = true.
+Proof. vm_compute. reflexivity. Qed.
